@@ -99,7 +99,8 @@ COMBO_LOGICS = ["QF_UFLRA", "QF_UFLIA", "QF_ALIA", "QF_AUFLIA", "QF_UFLRA", "QF_
 PLANS["C01"] = {
     "jobs": lambda seed, tier: spread(seed, "C01", N(tier, 130, 2600), ALL_LOGICS, "answers") +
                                spread(seed, "C01i", N(tier, 30, 600), COMBO_LOGICS, "answers", mode="interface") +
-                               spread(seed, "C01d", N(tier, 40, 800), ["QF_IDL", "QF_RDL", "QF_IDL", "QF_RDL", "QF_UFIDL"], "answers", mode="cnf", nnum=5, maxconst=2, n_atoms=10) +
+                               spread(seed, "C01d", N(tier, 20, 400), ["QF_IDL", "QF_RDL", "QF_IDL", "QF_RDL", "QF_UFIDL"], "answers", mode="cnf", nnum=5, maxconst=2, n_atoms=10) +
+                               spread(seed, "C01g", N(tier, 40, 800), ["QF_IDL", "QF_RDL", "QF_IDL", "QF_RDL", "QF_UFIDL"], "answers", mode="dlgraph", nnum=5) +
                                spread(seed, "C01b", N(tier, 26, 600), ALL_LOGICS, "answers", more_cfgs=["la", "ghost"]),
     "rule": "random incremental scripts over all supported logic families; the kernel (TLC) evaluates candidate models "
             "(from z3, from the solver's own get-model, from its grid) of the active assertions at every check-sat; "
@@ -112,7 +113,8 @@ PLANS["C02"] = {
                                       ["QF_BOOL", "QF_LIA", "QF_IDL", "QF_LIA", "QF_BOOL", "QF_IDL", "QF_UF", "QF_LRA", "QF_UFLIA",
                                        "QF_RDL", "QF_ALIA", "QF_AX", "QF_UFLRA"], "answers", n_assert=6) +
                                spread(seed, "C02i", N(tier, 60, 1200), COMBO_LOGICS, "answers", mode="interface") +
-                               spread(seed, "C02d", N(tier, 40, 800), ["QF_IDL", "QF_RDL", "QF_IDL", "QF_RDL", "QF_UFIDL"], "answers", mode="cnf", nnum=5, maxconst=2, n_atoms=10),
+                               spread(seed, "C02d", N(tier, 20, 400), ["QF_IDL", "QF_RDL", "QF_IDL", "QF_RDL", "QF_UFIDL"], "answers", mode="cnf", nnum=5, maxconst=2, n_atoms=10) +
+                               spread(seed, "C02g", N(tier, 40, 800), ["QF_IDL", "QF_RDL", "QF_IDL", "QF_RDL", "QF_UFIDL"], "answers", mode="dlgraph", nnum=5),
     "rule": "as C01; refutations by the kernel: exhaustive grid for propositional and boxed-integer scripts, "
             "congruence closure / Fourier-Motzkin / Bellman-Ford refutations where implemented; sat answers are also "
             "checked by evaluating the printed model (C03 monitor)",
@@ -146,7 +148,9 @@ PLANS["C05"] = {
                                             "ccmin0", "noinc", "embed", "itp", "models"][: N(tier, 14, 14)]) +
                                # dense difference-logic clause sets over five variables: the graph-based solver of QF_IDL/QF_RDL
                                # against the simplex solver of the embedding logic
-                               spread(seed, "C05d", N(tier, 50, 1000), ["QF_IDL", "QF_RDL"], "configs", mode="cnf", nnum=5, maxconst=2, n_atoms=10,
+                               spread(seed, "C05d", N(tier, 20, 400), ["QF_IDL", "QF_RDL"], "configs", mode="cnf", nnum=5, maxconst=2, n_atoms=10,
+                                      cfgs=["embed", "seed", "cores", "proofs"]) +
+                               spread(seed, "C05g", N(tier, 50, 1000), ["QF_IDL", "QF_RDL"], "configs", mode="dlgraph", nnum=5,
                                       cfgs=["embed", "seed", "cores", "proofs"]),
     "rule": "one script under up to 15 configurations (engines, seeds, tracking, preprocessing, restarts, logic embedding); "
             "memo keyed by the Active set across runs; contradicting definitive answers are violations",
@@ -159,7 +163,7 @@ PLANS["C06"] = {
             "re-introduced names, get-unsat-core after every check; non-trivial = a core was printed",
 }
 PLANS["C07"] = {
-    "jobs": lambda seed, tier: spread(seed, "C07", N(tier, 110, 2200), ["QF_BOOL", "QF_LIA", "QF_IDL", "QF_BOOL", "QF_LIA"], "cores", minimal=True, n_named=5) +
+    "jobs": lambda seed, tier: spread(seed, "C07", N(tier, 110, 2200), ["QF_BOOL", "QF_LIA", "QF_IDL", "QF_BOOL", "QF_LIA"], "cores", minimal=True, n_named=5, p_hidden_unsat=0.35) +
                                spread(seed, "C07f", N(tier, 20, 400), ["QF_BOOL", "QF_LIA"], "cores", minimal=True, full=True),
     "rule": "as C06 with :minimal-unsat-cores; irreducibility is refuted only by an exact kernel refutation "
             "(propositional and boxed-integer fragments)",
@@ -265,8 +269,10 @@ PLANS["C30"] = {
     "jobs": lambda seed, tier: spread(seed, "C30", N(tier, 60, 1200), NONINT_LOGICS, "configs",
                                       cfgs=["la", "picky", "ghost", "proofs", "cores", "itp", "seed", "nosubst", "rf1"], timeout=20) +
                                spread(seed, "C30i", N(tier, 40, 800), NONINT_LOGICS, "incremental") +
-                               spread(seed, "C30d", N(tier, 40, 800), ["QF_RDL", "QF_UFRDL", "QF_LRA", "QF_RDL"], "configs", mode="cnf", maxconst=1,
-                                      cfgs=["proofs", "cores", "seed", "itp"], timeout=20),
+                               spread(seed, "C30d", N(tier, 20, 400), ["QF_RDL", "QF_UFRDL", "QF_LRA", "QF_RDL"], "configs", mode="cnf", maxconst=1,
+                                      cfgs=["proofs", "cores", "seed", "itp"], timeout=20) +
+                               spread(seed, "C30g", N(tier, 40, 800), ["QF_RDL", "QF_UFRDL", "QF_RDL"], "configs", mode="dlgraph", nnum=5,
+                                      cfgs=["proofs", "cores", "seed"], timeout=20),
     "rule": "every check-sat of the non-integer script space under all engines and tracking options and in push/pop histories "
             "must answer within 20 s (the default engine answers these instances in milliseconds)",
 }
@@ -293,7 +299,7 @@ PLANS["C11"] = {
     "jobs": lambda seed, tier: engine_jobs(seed, "C11", N(tier, 150, 3000), THEORY_LOGICS,
                                            [["c0"], ["c0", "la"], ["ghost"], ["picky"], ["proofs"], ["seed"]], need="tcl") +
                                engine_jobs(seed, "C11d", N(tier, 60, 1200), ["QF_IDL", "QF_RDL", "QF_IDL", "QF_RDL", "QF_LRA", "QF_UF"],
-                                           [["c0"], ["proofs"], ["cores"]], need="tcl", modes=["cnf"], nnum=5, maxconst=2, n_atoms=12, ratio=2.2),
+                                           [["c0"], ["proofs"], ["cores"]], need="tcl", modes=["cnf", "dlgraph", "dlgraph"], nnum=5, maxconst=2, n_atoms=12, ratio=2.2),
     "rule": "every theory clause (conflict, explanation of a propagation, split, root-level deduction) of runs over the theory "
             "logics and engines; the kernel evaluates candidate models of the negated clause; non-trivial = the run produced a theory clause",
 }
